@@ -144,19 +144,43 @@ class G:
         return out
 
 
+def chain(g):
+    """Nested scopes (2-4 deep) most of which define the SAME name; probes in every scope, before and after the inner
+    scope: innermost-to-outermost lookup and the end of each scope are decided here."""
+    rng = g.rng
+    n = rng.choice(USER + ["when"])
+    kinds = ["defn", "fn", "defclass", "lfor"]
+
+    def build(d):
+        body = []
+        if rng.random() < 0.7:
+            body.append(rng.choice([["defmacro", n, g.tag()], ["defmacro", n, g.tag()],
+                                    ["require", "c35liba", "list", [["a1", n]]]]))
+        body.append(["probe", [n]])
+        if d > 1:
+            body.append(["scope", rng.choice(kinds), build(d - 1)])
+            body.append(["probe", [n]])
+        return body
+
+    return [["scope", rng.choice(kinds), build(rng.randint(2, 4))], ["probe", [n]]]
+
+
 def generate(rng, tier):
     g = G(rng)
     ops = []
     for _ in range(rng.randrange(6, 17)):
         r = rng.random()
-        if r < 0.2:
+        if r < 0.08:
+            ops.append({"op": "eval", "stmts": chain(g)})
+        elif r < 0.2:
             ops.append({"op": "eval", "stmts": [g.defmacro()]})
         elif r < 0.35:
             ops.append({"op": "eval", "stmts": [g.require()]})
         elif r < 0.55:
             ops.append({"op": "eval", "stmts": [g.probes()]})
         elif r < 0.8:
-            ops.append({"op": "eval", "stmts": g.stmts(2)})
+            # up to four scopes deep, so that "innermost to outermost" is decided among several enclosing local scopes
+            ops.append({"op": "eval", "stmts": g.stmts(rng.choice([2, 2, 3, 4]))})
         elif r < 0.88:
             ex = {mangle(rng.choice(USER + CORE_SHADOW + ["a1"])): g.tag() for _ in range(rng.randint(1, 2))}
             ops.append({"op": "eval", "stmts": g.stmts(1) + [g.probes()], "extra": ex})
